@@ -10,7 +10,7 @@ K-C01: a generated PROGRAM of typed remora statements is rendered as C++ TUs (co
 import json, os, re, subprocess, time
 from concurrent.futures import ThreadPoolExecutor
 from vlib import core
-from checks import c01gen
+from checks import c01gen, c01neg
 
 TRUST = ("Lean 4.33 kernel; axioms at most propext/Classical.choice/Quot.sound (audited per run by #audit_module); ")
 MANIFEST = dict(
@@ -259,6 +259,8 @@ def run(ctx):
         ctx.cov["rewrite_rules_uninstantiable"] = [f"{r['opt']}<{r['pattern']}>: {r['reason']}"[:200]
                                                    for r in tab["rules"] if r["status"] == "uninstantiable"]
         ctx.cov["rewrite_rules_with_implicit_conversions"] = [r["name"] for r in tab["rules"] if r.get("conversions")]
+        # the C++ compiler must agree that the rules classified as uninstantiable cannot be instantiated
+        c01neg.confirm(ctx, core.REPO, ctx.shark_h(), tab, os.path.join(GEN_DIR, "neg"), JOBS)
     except OSError:
         pass
     mods = ["SharkVerif.Props.C01"]
